@@ -10,7 +10,8 @@ One row per registered built-in:   (yarel-visible name, arity, receiver, key, ar
   receiver     the kind k of the first `.try_as_obj_<k>()` that is followed by `.expect(` ("-" = none);
   key          body calls validate_hash_map_key(..);
   arity_first  the arity check precedes the receiver `expect` (true when one of them is absent).
-Also: VEC_ELEMS_MAX, the `arity > K` bound of fiber_init, and whether call_closure still compares the
+Also: the comparison operator of the end-of-iteration guard of every `Obj*Iter::next` in object.rs
+(`if self.current >= elements.len()` / `if self.pos == self.iterable.len()`), VEC_ELEMS_MAX, the `arity > K` bound of fiber_init, and whether call_closure still compares the
 frame count with common::FRAMES_MAX before pushing a frame.
 Dropping a check_num_args, replacing ok_or_else by expect on an argument, or removing the key
 validation flips a row; reformatting, renaming locals or Rust functions does not."""
@@ -128,6 +129,33 @@ def registrations(core, vm):
     return regs, bodies
 
 
+CMP_OPS = (">=", "==", ">", "<=", "<", "!=")
+
+
+def iter_guards(obj):
+    """[(struct, operator)] : operator of the first `if <a> <op> <b> {` of `fn next` in `impl <struct> {`"""
+    res = []
+    for struct in ("ObjStringIter", "ObjTupleIter", "ObjVecIter", "ObjRangeIter"):
+        op = "?"
+        i = find_seq(obj, ["impl", struct, "{"])
+        if i >= 0:
+            o, c = body_after(obj, i)
+            j = find_seq(obj, ["fn", "next"], o, c)
+            if j >= 0:
+                bo, bc = body_after(obj, j)
+                k = find_seq(obj, ["if"], bo, bc)
+                if k >= 0:
+                    e = k + 1
+                    while obj[e].text != "{":
+                        e += 1
+                    ops = [t.text for t in obj[k + 1:e] if t.text in CMP_OPS]
+                    nxt = [t.text for t in obj[e + 1:e + 3]]
+                    if len(ops) == 1 and nxt[:2] == ["return", "None"]:
+                        op = ops[0]
+        res.append((struct, op))
+    return res
+
+
 def toks_text(toks, i, texts):
     return all(i + k < len(toks) and toks[i + k].text == texts[k] for k in range(len(texts)))
 
@@ -169,6 +197,8 @@ def gen_natives(man):
         i = find_seq(vm, ["frames", ".", "len", "(", ")", "==", "common", "::", "FRAMES_MAX"], o, c)
         j = find_seq(vm, ["push_call_frame"], o, c)
         frames_check = 0 <= i < j
+    guards = iter_guards(toks_of("object.rs"))
+    man["c02_iter_guards"] = dict(guards)
     man["c02_natives"] = len(rows)
     man["c02_rows"] = ["%s:%s:%s:%s:%s" % (n, a, r, int(k), int(f)) for n, a, r, k, f in rows]
     man["c02_consts"] = {"VEC_ELEMS_MAX": vec_max, "fiber_arity_bound": fiber_bound, "call_closure_checks_frames": frames_check}
@@ -179,6 +209,9 @@ def gen_natives(man):
              "Definition src_native_rows : list (string * string * string * bool * bool) :=",
              "  [" + ";\n   ".join("(%s, %s, %s, %s, %s)" % (coq_str(n), coq_str(a), coq_str(r), "true" if k else "false", "true" if f else "false")
                                    for n, a, r, k, f in rows) + "].", "",
+             "(* comparison operator of the end-of-iteration guard of Obj*Iter::next (object.rs); \"?\" = not recognised *)",
+             "Definition src_iter_guards : list (string * string) :=",
+             "  [" + "; ".join("(%s, %s)" % (coq_str(a), coq_str(b)) for a, b in guards) + "].", "",
              "Definition SRC_VEC_ELEMS_MAX : N := %s%%N." % (vec_max if vec_max is not None else 0),
              "Definition src_fiber_arity_bound : N := %s%%N." % (fiber_bound if fiber_bound is not None else 0),
              "Definition src_call_closure_checks_frames : bool := %s." % ("true" if frames_check else "false"), ""]
